@@ -2,6 +2,7 @@
 C11 — operator results do not depend on the cost model.
 -/
 import ClvmProofs.Lemmas.Interp.ModelIndep
+import ClvmProofs.Lemmas.Interp.LiftModel
 
 namespace Clvm.Props.C11
 open Clvm Clvm.Interp
@@ -24,5 +25,22 @@ theorem unknown_value_model_independent (op : Bytes) (F m m' : Nat) (args : Val)
     (h : opUnknown op F m args c = .ok r) (h' : opUnknown op (F ||| Gen.FLAG_NEW_COST_MODEL) m' args c = .ok r') :
     r.2 = r'.2 :=
   opUnknown_modelIndep op F m m' args c r r' hF h h'
+
+/-- **Whole programs (partial).** For every program, environment and pair of budgets/fuels: a
+program that succeeds under `F` (old cost model) and under `F ∪ NEW_COST_MODEL` returns the same
+value and leaves the same counters.  Proved when ENABLE_KECCAK_OPS_OUTSIDE_GUARD is in `F`; missing
+without it: inside an extension-0 guard opcode 62 is an unknown operator in the old model and
+keccak256 in the new one, so the two runs are not in lock-step inside the guard although both guards
+end in nil with the counters restored (needs the guard-as-black-box frame lemma). -/
+theorem whole_program_value_model_partial (cfg : Cfg) (extra : String → Option OpFn)
+    (hmi : ∀ name f, extra name = some f → OpModelIndep f)
+    (hre : ∀ name f, extra name = some f → OpRestrict f)
+    (F : Nat) (hF : hasFlag F Gen.FLAG_NEW_COST_MODEL = false)
+    (hKec : hasFlag F Gen.FLAG_ENABLE_KECCAK_OPS_OUTSIDE_GUARD = true)
+    {fuel1 fuel2 : Nat} {c0 : Ctr} {p e : Val} {M1 M2 : Nat} {r1 r2 : Nat × Val × Ctr}
+    (h1 : runProgram cfg (chiaDialect cfg extra F) fuel1 c0 p e M1 = some (.ok r1))
+    (h2 : runProgram cfg (chiaDialect cfg extra (F ||| Gen.FLAG_NEW_COST_MODEL)) fuel2 c0 p e M2 = some (.ok r2)) :
+    r1.2 = r2.2 :=
+  eval_value_model_partial cfg extra hmi hre F hF hKec h1 h2
 
 end Clvm.Props.C11
